@@ -172,6 +172,14 @@ def PSt.init (pieces : Bytes → List Bytes) (w : ω) (headerBytes : Bytes) : Bo
   match Codec.encode wr pieces { w := w } (headerPacket headerBytes) with
   | (ok, c) => (ok, { codec := c })
 
+/-- a sequence of `Write` calls: the `(n, err)` each returned, and the final state -/
+def PSt.writes (cfg : Cfg) : PSt ω → List Bytes → List (Nat × Option Err) × PSt ω
+  | st, [] => ([], st)
+  | st, p :: ps =>
+    let r := st.write wr cfg p
+    let rs := PSt.writes cfg r.2.2 ps
+    ((r.1, r.2.1) :: rs.1, rs.2)
+
 /-! ### the detached-signature stream -/
 
 /-- `signDetachedStream`: `msg` stands for the state of the SHA-512 hasher (what
@@ -190,6 +198,13 @@ def DSt.close (pieces : Bytes → List Bytes) (sigPkt : Bytes → Bytes) (st : D
   match Codec.encode wr pieces st.codec (sigPkt st.msg) with
   | (true, c) => (none, { st with codec := c })
   | (false, c) => (some .ioError, { st with codec := c })
+
+def DSt.writes : DSt ω → List Bytes → List (Nat × Option Err) × DSt ω
+  | st, [] => ([], st)
+  | st, p :: ps =>
+    let r := st.write p
+    let rs := DSt.writes r.2.2 ps
+    ((r.1, r.2.1) :: rs.1, rs.2)
 
 def DSt.init (pieces : Bytes → List Bytes) (w : ω) (headerBytes : Bytes) : Bool × DSt ω :=
   match Codec.encode wr pieces { w := w } (headerPacket headerBytes) with
